@@ -860,6 +860,10 @@ pub fn run_sweep(thorough: bool, seed: u64, nthreads: usize, deadline: Instant, 
                                 acc.violation(Witness { prop: tag.into(), rule: "large-graph-misbehaves".into(), sig: format!("large-graph-misbehaves|{}:{}", c, tag), detail: format!("{} with {} jobs, cascade {}: {}", sh, sz, c, what), replay_args: args.clone(), trace: line.to_string() });
                             }
                         }
+                        if c == "noop" {
+                            // the up-to-date re-evaluation cascade is C12 at scale
+                            acc.violation(Witness { prop: "C12".into(), rule: "large-graph-misbehaves".into(), sig: format!("large-graph-misbehaves|noop:{}", site), detail: format!("{} with {} jobs, re-evaluation of the unchanged project: {}", sh, sz, what), replay_args: args.clone(), trace: line.to_string() });
+                        }
                         if site == "signal-budget" {
                             acc.violation(Witness { prop: "C05".into(), rule: "large-graph-misbehaves".into(), sig: format!("large-graph-misbehaves|{}:signal-budget", c), detail: format!("{} with {} jobs, cascade {}: {}", sh, sz, c, what), replay_args: args.clone(), trace: line.to_string() });
                         }
